@@ -1156,3 +1156,47 @@ RS.rules.append(Rule('C07.R7', 'K-TABLE', 'a function listing (`typeset -fp`) is
 RS.rules.append(Rule('C07.R7b', 'K-GUARD', 'function listing: redirections are moved in front of a keyword-spelled command name whatever its length (C06.R3b)',
                      _c06_redir_before_keyword))
 RS.explanation += ' Function listings are printed by Display: the keyword clauses of the printer are shared with C06 (R7 = C06.R5, R7b = C06.R3b).'
+
+
+# ---------------------------------------------------------------------------------------
+# added after seed wave 4 (C07-s8: a single-byte fast path that used is_ascii_whitespace for all of Latin-1)
+@RS.rule('C07.R8', 'K-PASS+K-SIBLING', 'a character is declared safe to print unquoted only after the very predicate the lexer uses for blanks has said no: '
+         'the lexer delimits tokens with char::is_whitespace (is_blank), so in char_needs_quoting every path to a return either answers the '
+         'constant `true` or answers with char::is_whitespace of the character - no other test (a byte-range fast path, is_ascii_whitespace, a '
+         'table) can end with "needs no quoting" (NBSP, NEL and VT are blanks for the lexer: `typeset v=ls<NBSP>-l` printed bare reads back as two words)')
+def r8(cx):
+    F = cx.F
+    fn = QUOTE + 'char_needs_quoting'
+    body = F.inlined(F.body(fn))
+    cx.fn(fn)
+    # the sibling: is_blank really is char::is_whitespace (minus the newline)
+    ib = F.body(LEX + 'core::is_blank') if (LEX + 'core::is_blank') in F.bodies else None
+    cx.require(ib is not None, 'the lexer predicate lex::core::is_blank was not found')
+    cx.require(Q.find_calls(ib, [re.compile(r'char::methods::<impl char>::is_whitespace$')]),
+               'is_blank no longer consults char::is_whitespace: review which predicate delimits tokens and make char_needs_quoting agree')
+    ws = [(b, t) for b, t in Q.find_calls(body, [re.compile(r'char::methods::<impl char>::is_whitespace$')])
+          if (Q.operand_place(t['a'][0]) or {}).get('l') in Q.forward_taint(body, {1}) or (Q.operand_place(t['a'][0]) or {}).get('l') == 1]
+    through = {b for b, t in ws if t['dest']['l'] == 0 or True}
+    for b, j, st in body.stmts():
+        if st['k'] == 'assign' and st['lhs']['l'] == 0 and not st['lhs'].get('p') and st['rv']['k'] == 'use' and str(st['rv']['o'].get('c')) == 'true':
+            through.add(b)
+    cx.site('char_needs_quoting: char::is_whitespace(c) consulted at %s; %d block(s) answer the constant true' % (
+        [body.loc(t) for b, t in ws], len(through) - len({b for b, t in ws})))
+    if not ws:
+        cx.violation(fn, 'lexer-blank-predicate-not-consulted', 'char_needs_quoting never asks char::is_whitespace, the predicate the lexer uses to '
+                     'delimit tokens: a value containing a non-ASCII blank is printed bare and reads back as several words', loc=body.loc(body.d))
+        return
+    path = Q.must_pass(body, [0], through)
+    if path is not None:
+        cx.violation(fn, 'safe-without-lexer-blank-test', 'char_needs_quoting can answer without having asked char::is_whitespace (and without '
+                     'answering `true`): some characters are declared safe by another test, e.g. a single-byte fast path using '
+                     'is_ascii_whitespace, which lets U+000B, U+0085 and U+00A0 through although the lexer splits words at them',
+                     loc=body.loc(body.term(path[-1])), path=Q.render_path(body, path))
+    # the answer of the predicate is the answer of the function on that path (not negated, not and-ed away)
+    for b, t in ws:
+        if t['dest']['l'] != 0:
+            tl = Q.forward_taint(body, {t['dest']['l']})
+            cx.require(0 in tl, 'the result of char::is_whitespace does not flow into the answer of char_needs_quoting (shape not understood)')
+
+
+RS.explanation += ' char_needs_quoting declares a character safe only after char::is_whitespace - the lexer\'s blank predicate - said no (R8).'
